@@ -96,6 +96,12 @@ pub fn gen_bigram_sized(rng: &mut Rng, big_costs: bool, star_listed: bool, nr: u
             if rng.chance(1, 6) { for f in r.iter_mut().take(8) { *f = "*".to_string(); } }
         }
     }
+    // 1 model in 25: one listed feature longer than 4096 bytes (the CSV reader's buffer size)
+    if rng.chance(1, 25) {
+        let long: String = std::iter::repeat('L').take(4097 + rng.below(3000) as usize).collect();
+        let p = rng.below(right[0].len() as u64) as usize;
+        right[0][p] = long;
+    }
     // occasional duplicate rows (ids sharing all features)
     if nr > 1 && rng.chance(1, 4) { right[nr - 1] = right[0].clone(); }
     if nl > 1 && rng.chance(1, 4) { left[nl - 1] = left[0].clone(); }
